@@ -220,7 +220,7 @@ var reviewedLengths = map[string]lengthFact{
 	"call:strings.Split": {1, "strings.Split with a non-empty separator returns at least one element", ""},
 	"call:(*graph.Graph).EdgeToPath": {1,
 		"a path returned by EdgeToPath contains at least its target (HEAP-H5 and the reversal rules state its construction)", ""},
-	"Result.out": {1,
+	"Result.out@output-mapping": {1,
 		"the Result of a function that is on a resolution path (entered through one of its output vertices), adapted for a non-lifted output set, carries the output struct as its first value", ""},
 	"role:convertMulti#0": {1,
 		"on success convertMulti returns one output per requested target, and Convert requests one", "role:convertMulti#1==nil"},
@@ -289,10 +289,20 @@ func runBounds(c *Ctx) {
 		for _, in := range ins {
 			c.R.Sites++
 			c.R.Func(core.FuncName(in.Parent()))
-			env := c.chainEnv(in.Parent())
+			// the site must hold on every way its function is reached (one binding of helper parameters per call site)
+			sh, ok, why := "", true, ""
 			saved := core.PathEnv
-			core.PathEnv = env
-			sh, ok, why := c.boundsJustified(in)
+			for _, ch := range c.chains(in.Parent(), 0) {
+				core.PathEnv = ch.env
+				s1, ok1, why1 := c.boundsJustified(in, ch.lits)
+				if sh == "" || !ok1 {
+					sh, why = s1, why1
+				}
+				if !ok1 {
+					ok = false
+					break
+				}
+			}
 			core.PathEnv = saved
 			k := "site|" + sh
 			seen[k]++
@@ -305,29 +315,46 @@ func runBounds(c *Ctx) {
 	}
 }
 
-// chainEnv binds the parameters of f — and of the private helpers it is reached through, as long as each has a single
-// call site — to the arguments handed in, so that paths and guards of callers and callee can be compared.
-func (c *Ctx) chainEnv(f *ssa.Function) map[*ssa.Parameter]ssa.Value {
-	env := map[*ssa.Parameter]ssa.Value{}
-	for i := 0; i < 4 && f != nil; i++ {
-		for f.Parent() != nil {
-			f = f.Parent()
-		}
-		if !c.P.PrivateHelper(f) {
-			break
-		}
-		sites := c.P.Callers(f)
-		if len(sites) != 1 {
-			break
-		}
-		for j, prm := range f.Params {
-			if j < len(sites[0].Common().Args) {
-				env[prm] = sites[0].Common().Args[j]
+type siteChain struct {
+	env  map[*ssa.Parameter]ssa.Value
+	lits []core.Lit
+}
+
+// chains enumerates the ways f is reached through private helpers: for each chain of call sites, the parameters bound
+// to the arguments handed in and the guards that dominate the call sites (so that paths and guards of callers and
+// callee can be compared). A function that is not a private helper has the single empty chain.
+func (c *Ctx) chains(f *ssa.Function, d int) []siteChain {
+	for f != nil && f.Parent() != nil {
+		f = f.Parent()
+	}
+	empty := []siteChain{{env: map[*ssa.Parameter]ssa.Value{}}}
+	if f == nil || d > 3 || !c.P.PrivateHelper(f) {
+		return empty
+	}
+	sites := c.P.Callers(f)
+	if len(sites) == 0 {
+		return empty
+	}
+	var out []siteChain
+	for _, s := range sites {
+		for _, pc := range c.chains(s.Parent(), d+1) {
+			env := map[*ssa.Parameter]ssa.Value{}
+			for k, v := range pc.env {
+				env[k] = v
+			}
+			for j, prm := range f.Params {
+				if j < len(s.Common().Args) {
+					env[prm] = s.Common().Args[j]
+				}
+			}
+			lits := append(append([]core.Lit{}, pc.lits...), core.Lits(core.Guards(s.Block()))...)
+			out = append(out, siteChain{env, lits})
+			if len(out) >= 12 {
+				return out
 			}
 		}
-		f = sites[0].Parent()
 	}
-	return env
+	return out
 }
 
 // res follows conversions, bound parameters, single-assignment locals and captured variables to the defining value.
@@ -364,8 +391,80 @@ func (c *Ctx) res(v ssa.Value) ssa.Value {
 	return v
 }
 
+// elemSources collects the origins of the values stored as elements of the slice `base` (a slice made in this or a
+// calling function, or returned by a private step).
+func (c *Ctx) elemSources(base ssa.Value, out map[string]bool, d int) {
+	if d > 5 {
+		out["elem"] = true
+		return
+	}
+	b := c.res(base)
+	if core.IsNilConst(b) {
+		out["nil-slice"] = true
+		return
+	}
+	switch v := b.(type) {
+	case *ssa.Extract:
+		if cl, ok := v.Tuple.(*ssa.Call); ok {
+			if h := cl.Common().StaticCallee(); h != nil && c.P.InTarget(h) && len(h.Blocks) > 0 {
+				saved := core.PathEnv
+				core.PathEnv = nil
+				for _, r := range core.Returns(h) {
+					if v.Index < len(r.Results) && !core.IsNilConst(r.Results[v.Index]) {
+						c.elemSources(r.Results[v.Index], out, d+1)
+					}
+				}
+				core.PathEnv = saved
+				return
+			}
+		}
+	case *ssa.Call:
+		if h := v.Common().StaticCallee(); h != nil && c.P.InTarget(h) && len(h.Blocks) > 0 && core.CalleeName(v.Common()) != "builtin.append" {
+			saved := core.PathEnv
+			core.PathEnv = nil
+			for _, r := range core.Returns(h) {
+				if len(r.Results) == 1 && !core.IsNilConst(r.Results[0]) {
+					c.elemSources(r.Results[0], out, d+1)
+				}
+			}
+			core.PathEnv = saved
+			return
+		}
+	}
+	inst, ok := b.(ssa.Instruction)
+	if !ok || inst.Parent() == nil {
+		out["elem"] = true
+		return
+	}
+	found := false
+	core.Instrs(inst.Parent(), func(i2 ssa.Instruction) {
+		if st, ok := i2.(*ssa.Store); ok {
+			if ia2, ok := st.Addr.(*ssa.IndexAddr); ok && (c.res(ia2.X) == b || core.Path(ia2.X) == core.Path(b)) {
+				found = true
+				out[c.originOf(i2, st.Val, d+1)] = true
+			}
+		}
+	})
+	if !found {
+		out["elem"] = true
+	}
+}
+
 // originOf names where the indexed slice comes from.
 func (c *Ctx) originOf(in ssa.Instruction, x ssa.Value, d int) string {
+	o := c.originRaw(in, x, d)
+	if o == "Result.out" {
+		// the Result being mapped back onto the graph (output mapper and the result adapter it calls)
+		for _, r := range []string{"outputMapper", "resultAdapter"} {
+			if rf := c.P.MustRole(r); rf != nil && c.P.InRegion(core.Outer(in.Parent()), rf) {
+				return "Result.out@output-mapping"
+			}
+		}
+	}
+	return o
+}
+
+func (c *Ctx) originRaw(in ssa.Instruction, x ssa.Value, d int) string {
 	if d > 5 {
 		return "local"
 	}
@@ -414,14 +513,7 @@ func (c *Ctx) originOf(in ssa.Instruction, x ssa.Value, d int) string {
 			if ia, ok := o.X.(*ssa.IndexAddr); ok {
 				// an element of a slice of slices: where do the elements come from?
 				srcs := map[string]bool{}
-				base := core.Path(ia.X)
-				core.Instrs(ia.Parent(), func(i2 ssa.Instruction) {
-					if st, ok := i2.(*ssa.Store); ok {
-						if ia2, ok := st.Addr.(*ssa.IndexAddr); ok && core.Path(ia2.X) == base {
-							srcs[c.originOf(i2, st.Val, d+1)] = true
-						}
-					}
-				})
+				c.elemSources(ia.X, srcs, d+1)
 				if len(srcs) == 1 {
 					for k := range srcs {
 						return k
@@ -452,7 +544,7 @@ func (c *Ctx) callName(cl *ssa.Call) string {
 }
 
 // boundsJustified returns a description of the site and whether it is discharged.
-func (c *Ctx) boundsJustified(in ssa.Instruction) (string, bool, string) {
+func (c *Ctx) boundsJustified(in ssa.Instruction, outer []core.Lit) (string, bool, string) {
 	p := c.P
 	f := in.Parent()
 	var x, idx, lo, hi ssa.Value
@@ -484,8 +576,11 @@ func (c *Ctx) boundsJustified(in ssa.Instruction) (string, bool, string) {
 		}
 	}
 	sh := t + "<-" + origin + " [" + is + "]"
-	lits := p.ExpandLitsKeep(p.ILits(in.Block()))
+	lits := p.ExpandLitsKeep(append(core.Lits(core.Guards(in.Block())), outer...))
 
+	if origin == "nil-slice" {
+		return sh, true, "element of a slice that is nil on this way into the function: the loop over it does not run"
+	}
 	// 0. methods of a heap.Interface implementation: indices come from container/heap
 	if recv := f.Signature.Recv(); recv != nil && (f.Name() == "Less" || f.Name() == "Swap" || f.Name() == "Pop") && isHeapImpl(recv.Type()) {
 		return sh, true, "method of a heap.Interface implementation: container/heap supplies indices in [0, Len()) and calls Pop only on a non-empty queue"
@@ -665,8 +760,33 @@ func (c *Ctx) sameSlice(a, b ssa.Value) bool {
 	if core.Path(a) == core.Path(b) {
 		return true
 	}
+	// two reads of the same variable (one of them through a pointer parameter bound to its address)
+	if aa, ab := c.addrOfLoad(a), c.addrOfLoad(b); aa != nil && aa == ab {
+		return true
+	}
 	ra, rb := c.res(a), c.res(b)
 	return ra == rb || core.Path(ra) == core.Path(rb)
+}
+
+// addrOfLoad: v is a load; returns the address it reads, with helper parameters bound to their arguments.
+func (c *Ctx) addrOfLoad(v ssa.Value) ssa.Value {
+	u, ok := core.Strip(v).(*ssa.UnOp)
+	if !ok || u.Op != token.MUL {
+		return nil
+	}
+	a := core.Strip(u.X)
+	for i := 0; i < 4; i++ {
+		prm, ok := a.(*ssa.Parameter)
+		if !ok {
+			break
+		}
+		b, ok := core.PathEnv[prm]
+		if !ok || b == nil {
+			break
+		}
+		a = core.Strip(b)
+	}
+	return a
 }
 
 // counterOver: v is a loop counter and a dominating literal bounds it by the length of x, or of the slice whose
